@@ -125,6 +125,8 @@ BUF_PROFILES = {
     "joint": dict(p_read=0.4, p_miss=0.15, p_ext=0.0, p_ctx=0.2, p_cap=0.2, joint=True),
     "conflict": dict(p_read=0.3, p_miss=0.1, p_ext=0.12, p_ctx=0.25, p_cap=0.3),
     "readonly": dict(p_read=0.97, p_miss=0.1, p_ext=0.0, p_ctx=0.3, p_cap=0.3),
+    # writes of some files fail with OSError (disk full) for stretches of the program
+    "faults": dict(p_read=0.25, p_miss=0.1, p_ext=0.0, p_ctx=0.25, p_cap=0.5, p_fail=0.08),
 }
 
 
